@@ -75,7 +75,9 @@ func GetCPUPlans(resourceInfo *types.NodeResourceInfo, originCPUMap types.CPUMap
 
 	// get cpu plan for each numa node
 	for numaNodeID, cpuMap := range numaCPUMap {
-		numaCPUPlans := doGetCPUPlans(originCPUMap, cpuMap, availableResource.NUMAMemory[numaNodeID], shareBase, maxFragmentCores, req.CPURequest, req.MemRequest)
+		// a NUMA-local plan consumes node memory as well as NUMA memory
+		numaMemory := utils.Min(availableResource.NUMAMemory[numaNodeID], availableResource.Memory)
+		numaCPUPlans := doGetCPUPlans(originCPUMap, cpuMap, numaMemory, shareBase, maxFragmentCores, req.CPURequest, req.MemRequest)
 		for _, workloadCPUMap := range numaCPUPlans {
 			cpuPlans = append(cpuPlans, &types.CPUPlan{
 				NUMANode: numaNodeID,
